@@ -66,7 +66,7 @@ def peek(el):
     return v
 
 
-def execute(kind, path, wcfg, ccfg, rcfg, both, seq, switch_rule="AnyOfMany", inherited=False, disabled=False, runtime=False):
+def execute(kind, path, wcfg, ccfg, rcfg, both, seq, switch_rule="AnyOfMany", inherited=False, disabled=False, runtime=False, served=False):
     """returns observation dict; seq = tuple of 'v1' | 'v2' | 'same'"""
     import indi.message as M
     from indi.device import values as DV
@@ -201,6 +201,20 @@ def execute(kind, path, wcfg, ccfg, rcfg, both, seq, switch_rule="AnyOfMany", in
         else:
             cls, defs = D.build_class(spec, handlers=handlers, handlers_level=0 if inherited else None)
             dev = cls(router=router)
+        if served:
+            # the deployment serves its drivers through the library's own servers (started as an application starts
+            # them): whatever a server sets up on the event loop must not change the handler contract
+            import io as _io
+
+            from indi.transport.server.tcp import TCP as _TCP
+            from indi.transport.server.tty import TTY as _TTY
+
+            from mc.core import vloop as _V
+
+            tty = _TTY(router, _V.aio_text(_V.LineSource(), loop, _V.CtlExecutor()), _V.aio_text(_io.StringIO(), loop, _V.CtlExecutor()))
+            loop.create_task(tty.start())
+            loop.quiesce()
+            del published[:]
         el = dev.g.v.a
         for step in seq:
             cur = peek(el)
@@ -437,11 +451,14 @@ def run_shard(shard):
                         variants.append((False, True))  # the property is disabled
                     if len(seq) <= 2:
                         variants.append(("runtime", False))  # handlers subscribed at run time
+                    if len(seq) == 1:
+                        variants.append(("served", False))  # the library's TTY server runs in the same loop
                     for inherited, disabled in variants:
                         runtime = inherited == "runtime"
-                        if runtime:
+                        served = inherited == "served"
+                        if runtime or served:
                             inherited = False
-                        obs = execute(kind, path, wcfg, ccfg, rcfg, both, seq, inherited=inherited, disabled=disabled, runtime=runtime)
+                        obs = execute(kind, path, wcfg, ccfg, rcfg, both, seq, inherited=inherited, disabled=disabled, runtime=runtime, served=served)
                         res["executions"] += 1
                         res["transitions"] += len(obs["ops"])
                         res["counters"]["handler_calls"] = res["counters"].get("handler_calls", 0) + sum(len(o["log"]) for o in obs["ops"])
@@ -452,11 +469,13 @@ def run_shard(shard):
                                 disc += ",disabled-property"
                             if runtime:
                                 disc += ",runtime-attached"
+                            if served:
+                                disc += ",server-running"
                             key = (clause, disc)
                             if key in sig:
                                 sig[key]["count"] += 1
                             else:
-                                sig[key] = {"clause": clause, "disc": disc, "count": 1, "what": "W=%r C=%r R=%r both=%r seq=%r: %s" % (wcfg, ccfg, rcfg, both, seq, what), "replay": dict(kind=kind, path=path, wcfg=wcfg, ccfg=ccfg, rcfg=rcfg, both=both, seq=seq, inherited=inherited, disabled=disabled, runtime=runtime)}
+                                sig[key] = {"clause": clause, "disc": disc, "count": 1, "what": "W=%r C=%r R=%r both=%r seq=%r: %s" % (wcfg, ccfg, rcfg, both, seq, what), "replay": dict(kind=kind, path=path, wcfg=wcfg, ccfg=ccfg, rcfg=rcfg, both=both, seq=seq, inherited=inherited, disabled=disabled, runtime=runtime, served=served)}
     res["states"] = res["executions"]
     res["violations"] = list(sig.values())
     if kind == "text" and path == "client" and wi == 4:
@@ -489,5 +508,6 @@ def replay(rep):
     inh = rep.get("inherited", False)
     dis = rep.get("disabled", False)
     rt = rep.get("runtime", False)
-    obs = execute(*a, inherited=inh, disabled=dis, runtime=rt)
-    return [{"clause": c, "disc": d + (",inherited-handlers" if inh else "") + (",disabled-property" if dis else "") + (",runtime-attached" if rt else ""), "what": w} for c, d, w in judge(*a, obs, dis)]
+    sv = rep.get("served", False)
+    obs = execute(*a, inherited=inh, disabled=dis, runtime=rt, served=sv)
+    return [{"clause": c, "disc": d + (",inherited-handlers" if inh else "") + (",disabled-property" if dis else "") + (",runtime-attached" if rt else "") + (",server-running" if sv else ""), "what": w} for c, d, w in judge(*a, obs, dis)]
